@@ -112,11 +112,19 @@ pub fn check_data_consistency(
             }
         }
     }
+    let mut is_instructor = vec![false; participants.len()];
     for (i, c) in courses.iter().enumerate() {
         for instr in c.instructors.iter() {
             if *instr >= participants.len() {
                 return Err(format!("Instructor {} of {}. course is invalid", instr, i));
             }
+            if is_instructor[*instr] {
+                return Err(format!(
+                    "Participant {} is listed as instructor more than once (again in {}. course)",
+                    instr, i
+                ));
+            }
+            is_instructor[*instr] = true;
         }
         if c.num_min > c.num_max {
             return Err(format!(
